@@ -77,12 +77,14 @@ def Num.ltZero : Num → Bool
   | .int v => decide (v < 0)
   | .f64 b => decide (2 ^ 63 < b ∧ b ≤ 2 ^ 63 + 0x7FF0000000000000)
 
-/-- `a[~missing]` along the first axis; numpy raises IndexError when the lengths differ -/
+/-- `a[~missing]` along the first axis; numpy raises IndexError when the lengths differ — except
+for an EMPTY boolean index, which numpy accepts on an array of any length and which selects nothing
+(`np.array([1., -2.])[~np.asarray([], dtype=bool)]` is `array([])`; `zip` with `[]` is `[]`) -/
 def applyMask {β : Type} (xs : List β) (missing : Option (List Bool)) : Option (List β) :=
   match missing with
   | none => some xs
   | some m =>
-    if m.length = xs.length then some ((xs.zip m).filterMap fun p => if p.2 then none else some p.1)
+    if m.length = xs.length ∨ m = [] then some ((xs.zip m).filterMap fun p => if p.2 then none else some p.1)
     else none
 
 /-- `validate_sphere(radius, missing)`: `ndim` is `radius.ndim`, `flat` the entries when 1-D -/
